@@ -8,7 +8,7 @@ Extraction Language OCaml.
 Extraction "model.ml"
   lenN
   p2 tlv_next collect tlvs_len tlvs_is_empty
-  h_length h_len h_is_empty h_address_family h_address_bytes h_tlv_bytes h_as_bytes h_to_owned
+  h_display h_length h_len h_is_empty h_address_family h_address_bytes h_tlv_bytes h_as_bytes h_to_owned
   addresses_len addresses_is_empty family_to_u16 version_or_command protocol_or_family family_code
   is_incomplete2 is_complete2
   utf8_valid parse_u16 parse_ipv4 parse_ipv6 fmt_dec fmt_ipv4 fmt_ipv6
